@@ -102,7 +102,7 @@ func mwEntryPoints(ctx *Ctx) {
 	discover := fmt.Sprint(uint32(kmip.OperationDiscoverVersions))
 	activate := fmt.Sprint(uint32(kmip.OperationActivate))
 	if got, want := log.take(), "E1 E2 E3 T["+discover+"] X3 X2 X1"; got != want {
-		viol("negotiation-bypasses-chain", "version negotiation of DialContext with three middlewares installed: observed "+got+" ; every stage once, in order, around the transport is "+want)
+		viol("negotiation-not-through-whole-chain-in-order", "version negotiation of DialContext with three middlewares installed: observed "+got+" ; every stage once, in order, around the transport is "+want)
 	}
 	ctx.Res.Count("mw.entry.negotiation")
 	_, p = guard("mw-entry", func() int {
@@ -113,7 +113,7 @@ func mwEntryPoints(ctx *Ctx) {
 		return 0
 	})
 	if got, want := log.take(), "E1 E2 E3 T["+activate+"] X3 X2 X1"; p == "" && got != want {
-		viol("request-bypasses-chain", "Client.Request with three middlewares installed: observed "+got+" ; expected "+want)
+		viol("request-not-through-whole-chain-in-order", "Client.Request with three middlewares installed: observed "+got+" ; expected "+want)
 	}
 	ctx.Res.Count("mw.entry.request")
 	_, p = guard("mw-entry", func() int {
@@ -124,7 +124,7 @@ func mwEntryPoints(ctx *Ctx) {
 		return 0
 	})
 	if got, want := log.take(), "E1 E2 E3 T["+activate+","+activate+"] X3 X2 X1"; p == "" && got != want {
-		viol("batch-bypasses-chain", "Client.Batch with three middlewares installed: observed "+got+" ; expected "+want)
+		viol("batch-not-through-whole-chain-in-order", "Client.Batch with three middlewares installed: observed "+got+" ; expected "+want)
 	}
 	ctx.Res.Count("mw.entry.batch")
 	// a clone runs the same chain
